@@ -169,7 +169,8 @@ def d1_chain(ctx):
         if len(lst) != 1:
             raise Incomplete(f"ConstrainedObjective.__init__: {len(lst)} definitions of self.{nm}")
         st = lst[0]
-        ctx.decide(rule, u.match(st.value, want), init, st, construct=f"init:{nm}", detail=f"self.{nm} = {want}",
+        from .common import defs_to_lambdas
+        ctx.decide(rule, u.match(st.value, want) or u.match(defs_to_lambdas(st.value, init), want), init, st, construct=f"init:{nm}", detail=f"self.{nm} = {want}",
                    bad_detail=f"self.{nm} is defined as `{src(st.value)}`, expected `{want}` (up to names of locals)")
     # nested helper functions
     kids = {c.name: c for c in init.children if c.kind == "function"}
@@ -348,20 +349,22 @@ def d3(ctx):
             continue
         n_sub += 1
         node = scfg.node_for(st)
-        v = st.value
+        v = expand(scfg, node, st.value)
         ok = False
-        why = "not of the form kappa.at[m].set(s*kappa[m])"
+        why = "not of the form kappa.at[m].set(s*kappa[m]) / where(m, s*kappa, kappa)"
+        cur = f"{sobj}.kappa"
+        fac = f"{als}.penalty_scaling"
         if isinstance(v, ast.Call) and isinstance(v.func, ast.Attribute) and v.func.attr == "set" and isinstance(v.func.value, ast.Subscript) \
                 and isinstance(v.func.value.value, ast.Attribute) and v.func.value.value.attr == "at" and len(v.args) == 1:
             base = v.func.value.value.value
             idx = v.func.value.slice
-            be = expand(scfg, node, base)
-            arg = v.args[0]
-            okb = same(be, f"{sobj}.kappa")
-            want1 = f"{als}.penalty_scaling * {src(base)}[{src(idx)}]"
-            oka = same(arg, want1)
+            okb = same(base, cur)
+            oka = same(v.args[0], f"{fac} * {cur}[{src(idx)}]")
             ok = okb and oka
-            why = f"base `{src(be)}` (must be the current {sobj}.kappa), new entries `{src(arg)}` (must be {als}.penalty_scaling * current entries at the same index)"
+            why = f"base `{src(base)}` (must be the current {cur}), new entries `{src(v.args[0])}` (must be {fac} * current entries at the same index)"
+        elif isinstance(v, ast.Call) and (dotted(v.func) or "").split(".")[-1] in ("where", "if_then_else") and len(v.args) == 3:
+            ok = same(v.args[1], f"{fac} * {cur}") and same(v.args[2], cur)
+            why = f"selected entries `{src(v.args[1])}` (must be {fac} * {cur}), other entries `{src(v.args[2])}` (must be the current {cur})"
         ctx.decide(rule, ok, sub, st, construct="sub-step-kappa-grows", detail=why,
                    bad_detail=f"penalty update `{src(st)[:120]}`: {why}; a penalty parameter can decrease")
     if n_sub < 1:
@@ -673,11 +676,14 @@ def d5_scaling(ctx):
             if e.id in name_deg:
                 return name_deg[e.id]
             return None
-        if isinstance(e, ast.Call) and (dotted(e.func) or "").endswith("augmented_lagrange_solve"):
-            a = _sdeg(e.args[1], leaf_b) if len(e.args) > 1 else None
-            return F(1) if a == 1 else "unknown"
-        if isinstance(e, ast.Call) and (dotted(e.func) or "").endswith("warm_start_increment"):
-            a = _sdeg(e.args[1], leaf_b) if len(e.args) > 1 else None
+        if isinstance(e, ast.Call) and (dotted(e.func) or "").split(".")[-1] in ("augmented_lagrange_solve", "warm_start_increment"):
+            # the point argument is the callee's second parameter, however it is passed
+            pt_ = e.args[1] if len(e.args) > 1 else None
+            if pt_ is None:
+                for v_ in ctx.repo.resolve(e.func, bcs):
+                    if isinstance(v_, FuncVal) and len(v_.scope.params()) > 1:
+                        pt_ = actual(e, v_.scope.params(), v_.scope.params()[1])
+            a = _sdeg(pt_, leaf_b) if pt_ is not None else None
             return F(1) if a == 1 else "unknown"
         return None
     # flow-insensitive: every definition of a local must have the same degree (a literal 0 fits any)
